@@ -28,6 +28,7 @@ def impl_eqq(a, b):
         tag("ctcs_eq", [bits([x == y for y in fb.ctcs]) for x in fa.ctcs]),
     )
     extra = {
+        "inplace": inplace_edit(a, b),
         "ne": fa != fb,
         "set_size": len({fa, fb}),
         "dict_hit": {fa: 1}.get(fb) == 1,
@@ -37,6 +38,34 @@ def impl_eqq(a, b):
         "elem_sym": all((x == y) == (y == x) for x in ra for y in rb),
     }
     return out, extra
+
+
+def inplace_edit(a, b):
+    """history: build a, use it (==, hash, sort), then turn it into b through the public setters /
+    attributes; it must then equal an independently built b.  Only when a and b have the same tree
+    shape (edits of names, cardinalities, constraints).  None = not applicable."""
+    from flamapy.core.models.ast import AST
+    fa = spec.build_fm(a)
+    shape = lambda f: [[shape(c) for c in r["children"]] for r in f["rels"]]  # noqa: E731
+    if shape(a["root"]) != shape(b["root"]) or len(a["ctcs"]) != len(b["ctcs"]):
+        return None
+    other = spec.build_fm(a)
+    hash(fa), fa == other, sorted(fa.get_relations()), sorted(fa.ctcs), {c: 1 for c in fa.ctcs}   # warm any cache
+
+    def walk(feat, sb):
+        feat.name = sb["name"]
+        for rel, rb in zip(feat.relations, sb["rels"]):
+            rel.card_min, rel.card_max = rb["min"], rb["max"]
+            for ch, cb in zip(rel.children, rb["children"]):
+                walk(ch, cb)
+    walk(fa.root, b["root"])
+    for c, (name, node) in zip(fa.ctcs, b["ctcs"]):
+        c.name = name
+        c.ast = AST(spec.build_node(node))
+    fb = spec.build_fm(b)
+    return bool(fa == fb and fb == fa and hash(fa) == hash(fb)
+                and all(x == y and hash(x) == hash(y) for x, y in zip(fa.ctcs, fb.ctcs))
+                and (fa == other) == (fb == other))
 
 
 # ------------------------------------------------------------------------------ variants
@@ -95,6 +124,12 @@ def edits(m, rng, g):
         else:
             r["min"] = r["min"] - 1 if r["min"] > 0 else r["min"] + 1
         yield "card", m2
+    # [a..n] over n children  ->  [a..*]
+    m2 = clone()
+    rs = [r for f in spec.spec_features(m2["root"]) for r in f["rels"] if r["max"] == len(r["children"])]
+    if rs:
+        rng.choice(rs)["max"] = -1
+        yield "card-star", m2
     # move a leaf to another parent (as a new optional relation)
     m2 = clone()
     fs = list(spec.spec_features(m2["root"]))
@@ -207,6 +242,8 @@ def run(ctx):
             st.oracle_fail(label, req, "equal-objects-equal-hashes", "element level")
         if extra["ne"] == eq:
             st.oracle_fail(label, req, "ne-is-not-eq", "")
+        if extra["inplace"] is False:
+            st.oracle_fail(label, req, "edited-in-place-equals-rebuilt", label)
         if same and not eq:
             st.oracle_fail(label, req, "permuted-copy-equal", label)
         if same and (extra["set_size"] != 1 or not extra["dict_hit"]):
